@@ -32,3 +32,96 @@ def poly_to_z3(f, names):
                 t = t * names[nm]
         tot = tot + t
     return tot
+
+
+def identity_query(d, max_atoms=14, max_monos=80):
+    """export 'd == 0 on the admissible set' as a z3 problem: returns (solver asserting the side constraints and d != 0)
+    or None when the term is outside the exported fragment / too large"""
+    from . import term as S
+    atoms = set()
+    stack = [d.p]
+    polys = [d.p]
+    seen_polys = 0
+    while stack:
+        p = stack.pop()
+        seen_polys += len(p)
+        if seen_polys > 4 * max_monos:
+            return None
+        for m in p:
+            for a, e in m:
+                if a in atoms:
+                    continue
+                atoms.add(a)
+                k = S.A.kind[a]
+                info = S.A.info[a]
+                if k == 'rad':
+                    stack.append(info[1])
+                elif k == 'inv':
+                    stack.append(info)
+                elif k == 'def':
+                    stack.append(info.p)
+                elif k == 'sin':
+                    atoms.add(info)
+                elif k == 'undef':
+                    return None
+    if len(atoms) > max_atoms or len(d.p) > max_monos:
+        return None
+    V = {a: z3.Real("a%d" % a) for a in atoms}
+    INV = {}
+    cons = []
+
+    def mono(m, c):
+        t = z3.RealVal(str(c))
+        for a, e in m:
+            if e > 0:
+                for _ in range(e):
+                    t = t * V[a]
+            else:
+                if a not in INV:
+                    INV[a] = z3.Real("inv_a%d" % a)
+                    cons.append(INV[a] * V[a] == 1)
+                for _ in range(-e):
+                    t = t * INV[a]
+        return t
+
+    def poly(p):
+        tot = z3.RealVal(0)
+        for m, c in p.items():
+            tot = tot + mono(m, c)
+        return tot
+    for a in atoms:
+        k = S.A.kind[a]
+        info = S.A.info[a]
+        if k == 'rad':
+            kk, P = info
+            r = V[a]
+            pw = r
+            for _ in range(kk - 1):
+                pw = pw * r
+            cons.append(pw == poly(P))
+            if kk % 2 == 0:
+                cons.append(r >= 0)
+        elif k == 'sin':
+            cons.append(V[a] * V[a] + V[info] * V[info] == 1)
+        elif k == 'inv':
+            cons.append(V[a] * poly(info) == 1)
+        elif k == 'def':
+            cons.append(V[a] == poly(info.p))
+        elif k == 'ind':
+            cons.append(z3.Or(V[a] == 0, V[a] == 1))
+    dz = poly(d.p)          # may add inverse-variable constraints to cons
+    s = z3.Solver()
+    s.add(cons)
+    s.add(dz != 0)
+    return s
+
+
+def second_opinion(lhs_minus_rhs, timeout_ms=3000):
+    """independent back end for an identity obligation the ring normaliser discharged: 'unsat' confirms it (no point of the
+    admissible set, as over-approximated by the exported side constraints, has d != 0); 'sat' would be a disagreement"""
+    s = identity_query(lhs_minus_rhs)
+    if s is None:
+        return "skipped"
+    s.set("timeout", timeout_ms)
+    r = s.check()
+    return "unsat" if r == z3.unsat else ("sat" if r == z3.sat else "unknown")
